@@ -518,7 +518,11 @@ MANIFEST = {
                   'README attach step get_toc returns exactly the preorder (titles, level = depth+1, page numbers, same order, no '
                   'error entry) for distinct titles, page targets, a catalog without name trees, within one unit of fuel per '
                   'bookmark and within the reference budget; and the same table of contents and page list after a save/load '
-                  'round trip, as a composition lemma over the C01 statement (objects equal up to number normalisation). Forests '
+                  'round trip, as a composition lemma over the C01 statement (objects equal up to number normalisation), whose premises are '
+                  'discharged with C01_full (C17_reads_back_after_save_load_table / _after_save_load / _forest_after_save_load): the document '
+                  'build_outline + attach produce is proved to stay in C01\'s domain (created objects are well-formed dictionaries under fresh '
+                  'numbers), so the file save writes loads and get_toc of the loaded document is the same preorder -- table format for every '
+                  'page tree, stream format (one more object after the reload) for page trees meeting C12\'s hypotheses. Forests '
                   'higher than OUTLINE_DEPTH_LIMIT+1 = 257 levels are a proved-and-replayed known finding (C17-deep-outline: '
                   'get_toc answers Err). adjust_zero_pages is proved to turn a table holding a forest into one holding the specified '
                   'fixed-up forest (first child with a page, recursively), the denoted forest has distinct ids and height <= number '
